@@ -52,6 +52,35 @@ def _to_tail_form(body):
     return out
 
 
+def _bare_tail(body):
+    """every bare `return` is the last statement of a block in tail position"""
+    for st in body[:-1]:
+        if any(isinstance(n, ast.Return) for n in ast.walk(st)):
+            return False
+    if not body:
+        return True
+    last = body[-1]
+    if isinstance(last, ast.Return):
+        return last.value is None
+    if isinstance(last, ast.If):
+        return _bare_tail(last.body) and _bare_tail(last.orelse)
+    return not any(isinstance(n, ast.Return) for n in ast.walk(last))
+
+
+def _drop_bare_returns(body):
+    out = []
+    for st in body:
+        if isinstance(st, ast.Return) and st.value is None:
+            out.append(ast.copy_location(ast.Pass(), st))
+        elif isinstance(st, ast.If):
+            st.body = _drop_bare_returns(st.body) or [ast.Pass()]
+            st.orelse = _drop_bare_returns(st.orelse)
+            out.append(st)
+        else:
+            out.append(st)
+    return out
+
+
 def _replace_returns(body, name):
     out = []
     for st in body:
@@ -104,6 +133,9 @@ def _inline_call(stmt, call, helper, caller_names, counter):
             bound[p] = defaults[p]
     body = [st for st in helper.body if not (isinstance(st, ast.Expr) and isinstance(st.value, ast.Constant))]
     body = _to_tail_form(body)
+    rets_ = [n for st in body for n in ast.walk(st) if isinstance(n, ast.Return)]
+    if rets_ and all(r.value is None for r in rets_) and _bare_tail(body):
+        body = _drop_bare_returns(copy.deepcopy(body))      # `if c: return` guard clauses of a procedure
     procedure = not any(isinstance(n, (ast.Return, ast.Yield, ast.YieldFrom)) for st in body for n in ast.walk(st))
     if procedure:
         if not (isinstance(stmt, ast.Expr) and stmt.value is call):
